@@ -210,7 +210,7 @@ def kcenters(traj, distance_method, n_clusters=np.inf, dist_cutoff=0,
         kwargs = {'centers': centers}
     else:
         iteration = _kcenters_iteration
-        kwargs = {}
+        kwargs = {'centers': centers}
 
     maxdist = (mpi.ops.striped_array_max(distances) if mpi_mode
                else distances.max())
@@ -242,7 +242,7 @@ def kcenters(traj, distance_method, n_clusters=np.inf, dist_cutoff=0,
 
 def _kcenters_iteration(
         traj, distance_method, distances, assignments, center_inds,
-        use_triangle_inequality=False):
+        use_triangle_inequality=False, centers=None):
     """Core inner loop for kcenters centers discovery.
 
     Parameters
@@ -259,6 +259,9 @@ def _kcenters_iteration(
         The assignment of each point to a cluster center.
     center_inds : list
         The position of each center in ``traj``.
+    centers : list, default=None
+        The centers themselves. After a warm start they need not be
+        frames of ``traj``; if None, ``traj[center_inds]`` is used.
 
     Returns
     -------
@@ -285,7 +288,13 @@ def _kcenters_iteration(
     logger.debug("Chose frame %s as new center", new_center_index)
 
     if use_triangle_inequality and np.all(assignments >= 0):
-        cc_dists = distance_method(traj[center_inds], new_center)
+        if centers is None:
+            cc_dists = distance_method(traj[center_inds], new_center)
+        elif hasattr(centers[0], 'xyz'):
+            cc_dists = np.array([distance_method(c, new_center).squeeze()
+                                 for c in centers])
+        else:
+            cc_dists = distance_method(np.array(centers), new_center)
         recompute_dists = distances > (cc_dists[assignments] / 2)
 
         logger.debug("Recomputing %s of %s distances",
